@@ -7,9 +7,10 @@ shutil.copy("/repo/Cargo.lock", os.path.join(ROOT, "harness", "Cargo.lock"))
 g = os.path.join(ROOT, "tools", "gen_constants.py")
 if os.path.exists(g):
     subprocess.check_call([sys.executable, g], cwd=ROOT)
-g2 = os.path.join(ROOT, "tools", "gen_functions.py")
-if os.path.exists(g2):
-    subprocess.check_call([sys.executable, g2], cwd=ROOT)
+for g2 in ("gen_functions.py", "gen_steps.py"):
+    g2 = os.path.join(ROOT, "tools", g2)
+    if os.path.exists(g2):
+        subprocess.check_call([sys.executable, g2], cwd=ROOT)
 rc1 = subprocess.call(["cargo", "build", "--offline"], cwd=os.path.join(ROOT, "harness"), env=env)
 props = sorted("NomtModel.Props." + f[:-5] for f in os.listdir(os.path.join(ROOT, "lean", "NomtModel", "Props")) if f.endswith(".lean"))
 rc2 = subprocess.call(["lake", "build", "NomtModel", "nomt_model"] + props, cwd=os.path.join(ROOT, "lean"), env=env)
